@@ -1280,7 +1280,36 @@ func (b *Bounds) fieldLenInv(k FieldKey) *ival {
 			}
 		}
 		if iv == nil {
-			return nil
+			// no exact length: look for lower / upper bounds
+			iv = &ival{}
+			s := s
+			lenGoal := func(mk func(l Lin) Cons) bool {
+				ok, _ := b.Prove(s.Fn, s.Instr, func(sc *scope, pr *proof) []Cons {
+					l, ok := sc.lenLin(s.Val, pr)
+					if !ok {
+						return []Cons{{linConst(1)}}
+					}
+					return []Cons{mk(l)}
+				})
+				return ok
+			}
+			for _, c := range []int64{192, 64, 32, 24, 20, 16, 8, 5, 2, 1} {
+				c := c
+				if lenGoal(func(l Lin) Cons { return geC(l, c) }) {
+					iv.lo, iv.hasLo = c, true
+					break
+				}
+			}
+			for _, c := range []int64{100, 1448, 8192, 65536} {
+				c := c
+				if lenGoal(func(l Lin) Cons { return leC(l, c) }) {
+					iv.hi, iv.hasHi = c, true
+					break
+				}
+			}
+			if !iv.hasLo && !iv.hasHi {
+				return nil
+			}
 		}
 		if acc == nil {
 			acc = iv
@@ -1443,6 +1472,60 @@ func (b *Bounds) CheckFunc(fn *ssa.Function) []BoundObl {
 				return []Cons{geC(n, 0), leC(n, 1<<20)}
 			})
 			out = append(out, o)
+		case *ssa.Call:
+			// requires-side of library contracts
+			id := b.p.CalleeID(x.Common())
+			args := x.Common().Args
+			need := int64(0)
+			var buf ssa.Value
+			switch id {
+			case "(encoding/binary.bigEndian).Uint16", "(encoding/binary.littleEndian).Uint16", "(encoding/binary.bigEndian).PutUint16", "(encoding/binary.littleEndian).PutUint16":
+				need, buf = 2, args[1]
+			case "(encoding/binary.bigEndian).Uint32", "(encoding/binary.littleEndian).Uint32", "(encoding/binary.bigEndian).PutUint32", "(encoding/binary.littleEndian).PutUint32":
+				need, buf = 4, args[1]
+			case "(encoding/binary.bigEndian).Uint64", "(encoding/binary.littleEndian).Uint64", "(encoding/binary.bigEndian).PutUint64", "(encoding/binary.littleEndian).PutUint64":
+				need, buf = 8, args[1]
+			}
+			if buf != nil {
+				if l, ok := constLen(buf.Type()); ok && l >= need {
+					return
+				}
+				if sl, ok := unspill(buf).(*ssa.Slice); ok && isConstShape(sl) {
+					l, _ := constLen(sl.X.Type())
+					lo := int64(0)
+					if sl.Low != nil {
+						lo, _ = intConst(sl.Low)
+					}
+					hi := l
+					if sl.High != nil {
+						hi, _ = intConst(sl.High)
+					}
+					if hi-lo >= need {
+						return
+					}
+				}
+				o := BoundObl{Instr: in, Kind: "requires", Desc: fmt.Sprintf("%s needs %d bytes", id, need)}
+				o.OK, o.Why = b.Prove(fn, in, func(s *scope, pr *proof) []Cons {
+					l, ok := s.lenLin(buf, pr)
+					if !ok {
+						return []Cons{{linConst(1)}}
+					}
+					return []Cons{geC(l, need)}
+				})
+				out = append(out, o)
+				return
+			}
+			if id == "(*math/rand.Rand).Intn" || id == "math/rand.Intn" {
+				n := args[len(args)-1]
+				if c, ok := intConst(n); ok && c > 0 {
+					return
+				}
+				o := BoundObl{Instr: in, Kind: "requires", Desc: "rand.Intn needs n > 0"}
+				o.OK, o.Why = b.Prove(fn, in, func(s *scope, pr *proof) []Cons {
+					return []Cons{geC(s.lin(n, pr), 1)}
+				})
+				out = append(out, o)
+			}
 		case *ssa.Panic:
 			o := BoundObl{Instr: in, Kind: "panic", Desc: "explicit panic"}
 			o.OK, o.Why = b.Unreachable(fn, in.Block())
